@@ -1091,7 +1091,7 @@ fn request(r: &mut Rng, c: &[usize; 7], gs: &[G]) -> String {
 
 pub fn gen(tier: Tier, r: &mut Rng, emit: &mut dyn FnMut(String)) {
     // one CLI process per request: the quick tier is the pairwise-covering flag set (≈100 processes)
-    let extra = if tier == Tier::Quick { 40 } else { 4_000 };
+    let extra = if tier == Tier::Quick { 16 } else { 4_000 };
     let cs = combos(r, extra);
     for (n, c) in cs.iter().enumerate() {
         let prog = PROGS[c[6]];
@@ -1111,10 +1111,10 @@ pub fn gen(tier: Tier, r: &mut Rng, emit: &mut dyn FnMut(String)) {
         let mut gs = Vec::new();
         for b in 0..batch {
             let g = if n % 5 == 3 && b == 0 {
-                // deep: up to the documented limit (every node at a level < 256). Under --seq the
-                // input validator's own limit (128) applies first; the class beyond it is generated
-                // separately below (known finding C11-seq-depth).
-                let levels = if seq { *r.pick(&[60usize, 100, 126]) } else { *r.pick(&[60usize, 128, 129, 200, 254, 255]) };
+                // deep: up to the documented limit (every node at a level < 256), on every input
+                // route including --seq (which used to stop at the validator's 128: C11-seq-depth, fixed)
+                let _ = seq;
+                let levels = *r.pick(&[60usize, 128, 129, 200, 254, 255]);
                 match kind {
                     2 => G::Obj(vec![(GS { chars: vec!['a'], spell: vec![0] }, gen_deep(r, levels - 2, true))]),
                     _ => {
@@ -1134,7 +1134,8 @@ pub fn gen(tier: Tier, r: &mut Rng, emit: &mut dyn FnMut(String)) {
         }
         emit(request(r, &c, &gs));
     }
-    // --seq with documents nested deeper than the input validator's limit (pure arrays, no gaps)
+    // --seq with documents nested deeper than the strict validator's limit (pure arrays, no gaps):
+    // regression class of the repaired finding C11-seq-depth
     for (flags, n) in [("seq", 128usize), ("seq", 129), ("c,seq", 256), ("S,seq", 200)] {
         let mut g = G::Arr(vec![]);
         for _ in 1..n {
